@@ -57,13 +57,19 @@ func TestMain(m *testing.M) {
 		evid.Spec{Name: "TestReplay", Kind: "plain", QuickShards: 1, ThoroughShards: 1},
 		evid.Spec{Name: "TestPropSearch", Kind: "rapid", Quick: 8000, Thorough: 240000, QuickShards: 8, ThoroughShards: 16, TimeoutS: 3000},
 		evid.Spec{Name: "TestPropIndex", Kind: "rapid", Quick: 6000, Thorough: 160000, QuickShards: 8, ThoroughShards: 16, TimeoutS: 3000},
+		evid.Spec{Name: "TestPropLong", Kind: "rapid", Quick: 160, Thorough: 12000, QuickShards: 8, ThoroughShards: 16, TimeoutS: 3000},
+		evid.Spec{Name: "TestPropHistory", Kind: "rapid", Quick: 120, Thorough: 8000, QuickShards: 8, ThoroughShards: 16, TimeoutS: 3000},
+		evid.Spec{Name: "TestPropBigDB", Kind: "rapid", Quick: 4, Thorough: 96, QuickShards: 4, ThoroughShards: 16, TimeoutS: 3000},
 	)
 	evid.Note("rule", "A case is a reference database of 2..60 sequences (20..150 nt over acgt, also acg/ac and tandem repeats; 1..4 families built by mutation of a founder, of a sibling or of the query itself: 0..10 substitutions/insertions/deletions of a drawn kind mix, flanks added (longer) or ends removed (shorter), exact duplicates, unrelated sequences), a taxonomy of 1..25 nodes (C14 generator: random, deep, chain, star, caterpillar, broom, binary; root taxid 1) with each family mostly inside one clade, and a query (8..180 nt: 0..6 edits from the founder of family 0, ends possibly changed, or unrelated). "+
 		"Oracle: the query (resp. the indexed reference) is aligned with EVERY reference by an independent full-matrix LCS; distance = alignment length - LCS; best set = all references at the minimum. "+
 		"findclosests / findclosests_obitag2: returned distance, set of returned references (nothing missing, nothing extra, sequences consistent with positions), best identity and best match. "+
-		"indexsequence: every recorded distance d maps to taxid@name@rank of the tree LCA of the taxa of all references within d, and the recorded distances are those of the prefilter-free computation. "+
+		"indexsequence: every recorded distance d maps to taxid@name@rank of the tree LCA of the taxa of all references within d, and the recorded distances are those of the prefilter-free computation; in one case out of four some or all references carry, when IndexSequence is called, an obitag_ref_index left by another database. "+
 		"identify: assigned taxid is an ancestor-or-self of the taxon of every brute-force best reference, and equals the LCA over the best references of the LCA of all references within the best distance (root when the best identity < 0.5); match count and best identity annotations; references pre-indexed (none/some/all) or indexed lazily; obitag2 BestConsensus on the same indices. "+
-		"One evaluation = one call judged (one FindClosests, one IndexSequence map, one Identify). Non-trivial (search, identify) = at least 2 references tie at the minimal distance and at least one reference shares fewer 4-mers with the query than len(query)-3-4*dmin (a sound scan stops before it); non-trivial (index) = the index has at least 2 entries and at least one reference is below every 4-mer bound in play. Distinct = hash of (check, query, references, nodes, tree[, indexed reference / pre-indexed list]).")
+		"One evaluation = one call judged (one FindClosests, one IndexSequence map, one Identify). Non-trivial (search, identify) = at least 2 references tie at the minimal distance and at least one reference shares fewer 4-mers with the query than len(query)-3-4*dmin (a sound scan stops before it); non-trivial (index) = the index has at least 2 entries and at least one reference is below every 4-mer bound in play. Distinct = hash of (check, query, references, nodes, tree[, indexed reference / pre-indexed list]). "+
+		"long: the same generator, checks, oracles and non-trivial rules with 2..10 references of 150..520 nt and queries of 100..560 nt (lengths biased to 255..260 and 300: more than 255 4-mers per sequence, tandem repeats holding one word several hundred times), each case judged either as a search/identify case or as an index case. "+
+		ruleBigDB+" "+ruleHist)
+	evid.Commands("obirefidx", "obitag")
 	evid.Main(m, "C15")
 }
 
